@@ -272,6 +272,10 @@ def job_matern(d, tier):
             if str(core.Query.satisfiable(p.conds + [cnd], 5)[0]) == "unsat":
                 continue
             out.append(prove(base + f"/spectral_density==table [{nm}]", p.conds + [cnd], lift(sd) == lift(ref), T, witness_vars=wv, replay=rb, extra=xtra, instantiate=False))
+            if "nu>20" in nm:
+                # the listed finding, pinned: exactly the documented large-nu approximation (l/sqrt pi)^d exp(-x)(1+x^2/(2 nu)) sqrt(1+x/nu)^-d
+                kn = P * fn1("exp", -x) * (1 + 0.5 * x**2 / nu) * sym.sym_pow(fn1("sqrt", 1 + x / nu), -d)
+                out.append(prove(base + "/pinned known deviation: spectral_density(nu>20)==Gaussian limit times (1+x^2/(2nu)) (1+x/nu)^(-d/2)", p.conds + [cnd], lift(sd) == lift(kn), T, witness_vars=wv, replay=rb, instantiate=False))
     return out
 
 
